@@ -67,10 +67,16 @@ func (m *Machine) mapFind(mp *Map, key Value) *mapEntry {
 
 func (m *Machine) mapInsert(mp *Map, key, val Value) {
 	if e := m.mapFind(mp, key); e != nil {
+		if pi, ok := m.protMaps[mp]; ok {
+			m.protectMap(val, pi)
+		}
 		e.val = copyVal(val)
 		return
 	}
 	ne := &mapEntry{key: copyVal(key), val: copyVal(val)}
+	if pi, ok := m.protMaps[mp]; ok {
+		m.protectMap(val, pi)
+	}
 	mp.entries = append(mp.entries, ne)
 	if mp.strIdx != nil {
 		if k, ok := constStrKey(key); ok {
@@ -97,6 +103,7 @@ func (m *Machine) lookup(fr *frame, instr *ssa.Lookup, x, idx Value) Value {
 	case *Map:
 		var v Value
 		ok := false
+		m.checkMapAccess(x, false)
 		if e := m.mapFind(x, idx); e != nil {
 			v = copyVal(e.val)
 			ok = true
@@ -134,6 +141,7 @@ func (m *Machine) rangeIter(fr *frame, x Value, t types.Type) Value {
 	case *Map:
 		it := &mapIter{mp: x}
 		if x != nil {
+			m.checkMapAccess(x, false)
 			for _, e := range x.entries {
 				if !e.deleted {
 					it.remain = append(it.remain, e)
@@ -223,6 +231,7 @@ func (m *Machine) lenOf(v Value) *sym.Term {
 		if v == nil {
 			return sym.BVConst(64, 0)
 		}
+		m.checkMapAccess(v, false)
 		return sym.BVConst(64, uint64(v.Len()))
 	case *Chan:
 		if v == nil {
@@ -288,6 +297,7 @@ func (m *Machine) callBuiltin(caller *frame, fn *ssa.Builtin, args []Value) Valu
 	case "delete":
 		mp, _ := args[0].(*Map)
 		if mp != nil {
+			m.checkMapAccess(mp, true)
 			m.mapDelete(mp, args[1])
 		}
 		return nil
@@ -296,6 +306,7 @@ func (m *Machine) callBuiltin(caller *frame, fn *ssa.Builtin, args []Value) Valu
 		switch x := args[0].(type) {
 		case *Map:
 			if x != nil {
+				m.checkMapAccess(x, true)
 				for _, e := range x.entries {
 					e.deleted = true
 				}
